@@ -463,6 +463,69 @@ def semantic_cases(rng, rounds, tmp):
                 yield ("first-record-byte", inp, keys == wk and f.to_string() == data, {"keys": keys, "export": f.to_string().decode("latin-1")}, {"keys": wk, "export": data.decode("latin-1")})
             except Exception as ex:  # noqa: BLE001
                 yield ("first-record-byte", inp, False, errname(ex), "loads")
+    # another writer saves the bound file WHILE this object is reading it (after the last line was handed over, before the file is closed):
+    # whatever was read, the next load_if_changed() must notice the newer version — the remembered timestamp may never be newer than the
+    # content that was read.  Forced through the module's own `open`: the file object runs the other writer at end of iteration.
+    for cls, a, b in ((apache.HtpasswdFile, b"alice:h1\nbob:h2\n", b"alice:h1\nbob:h2\ncarol:h3\n"), (apache.HtdigestFile, b"alice:r:h1\n", b"alice:r:h1\ncarol:r:h3\n")):
+        for how in ("constructor", "load", "load_if_changed"):
+            path = os.path.join(tmp, "race_db")
+            with open(path, "wb") as fh:
+                fh.write(a)
+            t0 = int(time.time()) - 1000
+            os.utime(path, (t0, t0))
+            fired = []
+
+            class _Reader:
+                def __init__(self, fh):
+                    self.fh = fh
+
+                def __iter__(self):
+                    yield from self.fh
+                    if not fired:
+                        fired.append(1)
+                        with open(path, "wb") as w:
+                            w.write(b)
+                        os.utime(path, (t0 + 50, t0 + 50))
+
+                def __enter__(self):
+                    return self
+
+                def __exit__(self, *exc):
+                    self.fh.close()
+                    return False
+
+                def __getattr__(self, name):
+                    return getattr(self.fh, name)
+
+            def hooked(p, mode="r", *aa, **kk):
+                fh = open(p, mode, *aa, **kk)
+                return _Reader(fh) if (p == path and "r" in mode and "w" not in mode) else fh
+
+            inp = {"op": "writer-during-load", "class": cls.__name__, "how": how}
+            try:
+                if how == "constructor":
+                    apache.open = hooked
+                    f = cls(path)
+                else:
+                    f = cls(path)
+                    os.utime(path, (t0 + 10, t0 + 10))
+                    apache.open = hooked
+                    f.load() if how == "load" else f.load_if_changed()
+                try:
+                    del apache.open
+                except AttributeError:
+                    pass
+                seen_before = f.to_string()
+                changed = f.load_if_changed()
+                obs = {"other_writer_ran": bool(fired), "first_read": seen_before.decode(), "load_if_changed": changed, "state": f.to_string().decode()}
+                ok = bool(fired) and changed is True and f.to_string() == b
+            except Exception as ex:  # noqa: BLE001
+                ok, obs = False, errname(ex) + ": " + str(ex)[:100]
+            finally:
+                if "open" in vars(apache):
+                    del apache.open
+            yield ("writer-during-load-is-noticed", inp, ok, obs, {"load_if_changed": True, "state": b.decode()})
+            os.unlink(path)
     # autosave: disk == export after every change, including the hash upgrade made by check_password
     cobj = CryptContext(["ldap_salted_sha1", "ldap_md5"], deprecated=["ldap_md5"])
     for _ in range(max(4, rounds // 10)):
@@ -475,24 +538,30 @@ def semantic_cases(rng, rounds, tmp):
             u = rng.choice(["u1", "u2"])
             k = rng.choice(["set_old", "check", "check", "set_pw", "delete", "check_wrong"])
             hist.append([k, u])
-            if k == "set_old":
-                f.set_hash(u, ldap_md5.hash("pw"))
-            elif k == "set_pw":
-                f.set_password(u, "pw")
-            elif k == "delete":
-                f.delete(u)
-            elif k == "check":
-                as_s = lambda v: v if v is None or isinstance(v, str) else v.decode()  # noqa: E731
-                old = as_s(f.get_hash(u))
-                ans = f.check_password(u, "pw")
-                if old is not None and old.startswith("{MD5}"):
-                    new = as_s(f.get_hash(u))
-                    yield ("deprecated-upgraded", {"op": "autosave", "history": list(hist)}, ans is True and new.startswith("{SSHA}"), (ans, new), "True and a hash of the default scheme")
-            else:
-                f.check_password(u, "nope")
+            try:
+                if k == "set_old":
+                    f.set_hash(u, ldap_md5.hash("pw"))
+                elif k == "set_pw":
+                    f.set_password(u, "pw")
+                elif k == "delete":
+                    f.delete(u)
+                elif k == "check":
+                    as_s = lambda v: v if v is None or isinstance(v, str) else v.decode()  # noqa: E731
+                    old = as_s(f.get_hash(u))
+                    ans = f.check_password(u, "pw")
+                    if old is not None and old.startswith("{MD5}"):
+                        new = as_s(f.get_hash(u))
+                        yield ("deprecated-upgraded", {"op": "autosave", "history": list(hist)}, ans is True and new.startswith("{SSHA}"), (ans, new), "True and a hash of the default scheme")
+                else:
+                    f.check_password(u, "nope")
+                export = f.to_string()
+            except Exception as ex:  # noqa: BLE001
+                disk = open(path, "rb").read() if os.path.exists(path) else b""
+                yield ("autosave-step-raises", {"op": "autosave", "history": list(hist)}, False, {"error": errname(ex) + ": " + str(ex)[:80], "file_on_disk": disk.decode("latin-1")}, "the operation succeeds and the file holds every current user")
+                break
             disk = open(path, "rb").read() if os.path.exists(path) else b""
-            yield ("autosave-disk-equals-export", {"op": "autosave", "history": list(hist)}, disk == f.to_string() or (not os.path.exists(path) and k in ("delete", "check", "check_wrong")),
-                   disk.decode("latin-1"), f.to_string().decode("latin-1"))
+            yield ("autosave-disk-equals-export", {"op": "autosave", "history": list(hist)}, disk == export or (not os.path.exists(path) and k in ("delete", "check", "check_wrong")),
+                   disk.decode("latin-1"), export.decode("latin-1"))
         again = apache.HtpasswdFile(path, context=cobj) if os.path.exists(path) else None
         if again is not None:
             tob = lambda v: v if isinstance(v, bytes) else v.encode()  # noqa: E731  (an upgraded hash is kept as text until written)
